@@ -89,6 +89,43 @@ def gen_single(rng, profile="general"):
     return case
 
 
+def gen_large(rng, kind):
+    """Cases beyond the usual small sizes: long series, many clusters, many sensors / wide windows (size-threshold behaviour)."""
+    case = gen_single(rng, "plain")
+    case["eps"] = 0.0
+    case["init"] = None
+    case["task_plan"] = {}
+    case["mp"] = False
+    case["nproc"] = 1
+    case["biased"] = True
+    if kind == "long":
+        case["data"].update(T=int(rng.integers(1100, 2600)), N=int(rng.integers(1, 3)), n_reg=3, seg=int(rng.integers(40, 200)))
+        case["W"] = int(rng.integers(1, 3))
+        case["K"] = int(rng.integers(2, 5))
+        case["limit"] = int(rng.choice([2, 6]))
+        case["m"] = int(rng.choice([5, 20, 60]))
+    elif kind == "manyK":
+        case["data"].update(T=int(rng.integers(300, 520)), N=int(rng.integers(1, 3)), n_reg=6, seg=12)
+        case["W"] = 1 if case["data"]["N"] == 2 else int(rng.integers(1, 3))
+        case["K"] = int(rng.integers(8, 15))
+        case["limit"] = int(rng.choice([2, 4]))
+        case["m"] = int(rng.integers(2, 6))
+        case["beta"] = dict(form="float", value=float(rng.choice([0.5, 5.0])))
+    elif kind == "bigNW":
+        N, W = [(8, 1), (2, 9), (5, 3), (1, 16), (9, 2)][int(rng.integers(0, 5))]
+        case["data"].update(T=int(rng.integers(70, 110)) + W, N=N, n_reg=2, seg=20)
+        case["W"] = W
+        case["K"] = 2
+        case["limit"] = 2
+        case["m"] = 3
+        case["lam"] = dict(form="float", value=float(rng.choice([0.11, 0.5])))
+        if case["beta"]["form"].startswith("vector"):
+            case["beta"] = dict(form="float", value=5.0)
+    if case["beta"]["form"].startswith("vector"):
+        case["beta"]["seed"] = int(rng.integers(0, 10 ** 6))
+    return case
+
+
 def gen_joint(rng, profile="general"):
     case = gen_single(rng, "plain" if profile in ("general", "joint") else profile)
     ns = int(rng.integers(1, 7))
